@@ -360,10 +360,6 @@ func CheckC07(p *Pkg, e *Env, r *res.Result) {
 		v := g.Gen(tg.Type, tg.Schema, 3)
 		r.Evaluations++
 		bs, err := safeMarshal(v.Interface())
-		if err != nil || !json.Valid(bs) {
-			r.Label("skipped:not-encodable") // C06's business
-			return
-		}
 		where := "json.Marshal"
 		fail := func(clause, msg string) {
 			clause = clause + "@" + tg.Class
@@ -375,6 +371,11 @@ func CheckC07(p *Pkg, e *Env, r *res.Result) {
 			}
 			lastFail = &f
 			t.Fatalf("%s", f.Detail)
+		}
+		if err != nil {
+			// no JSON at all: nothing that could conform to the schema
+			fail("not-encodable:"+classifyMarshalErr(err), "encoding failed: "+err.Error())
+			return
 		}
 		tree, err := refmodel.DecodeJSON(bs)
 		if err != nil {
